@@ -66,7 +66,11 @@ def main():
             result["suite"] = outt.strip()
             result["demo_patched_tail"] = out1[-400:]
         else:
-            sh(f"git apply {mdir}/patch.diff", cwd=wt)
+            rca, outa = sh(f"git apply {mdir}/patch.diff", cwd=wt)
+            if rca != 0:
+                print("PATCH DOES NOT APPLY", outa)
+                result["confirmed"] = False
+                return result
         for c in checks:
             rc, out = sh(f"PYTHONHASHSEED=0 /venv/bin/python -m harness.check {c} --tier {tier}", cwd=vsnap,
                          env={"VERIF_REPO": wt}, timeout=7200)
